@@ -137,7 +137,9 @@ type verifPan struct {
 	verifVsys
 }
 
-func (m *verifPan) reject(c bool, why string) { vf.Assert(vf.Not(c), "C08: PAN-OS rejects command: "+why) }
+func (m *verifPan) reject(c bool, why string) {
+	vf.Assert(vf.Not(c), "C08: PAN-OS rejects command: "+why)
+}
 
 func (m *verifPan) rule(name string) (int, *panRule) {
 	for i, r := range m.rules {
